@@ -110,6 +110,10 @@ def generate(R, tier):
         files.append(bad)
         labels = sorted({l.split("=", 1)[1].strip() for f in files for l in f if l.startswith("label = ") and ":" in l})
         ops = [{"op": "load", "file": 0}]
+        use_shipped = R.random() < 0.08
+        if use_shipped:
+            # load() WITHOUT a path: the bundled p0f.fp, whatever was loaded (or failed to load) on this object before
+            files.append(c09.load_shipped())
         if R.random() < 0.3:
             # calls made BEFORE the first load: the database handed in holds nothing yet (whatever the process default holds)
             pre = []
@@ -122,7 +126,7 @@ def generate(R, tier):
             r = R.random()
             j = R.randrange(len(pkts))
             if r < 0.08:
-                ops.append({"op": "load", "file": R.choice([0, 1, 0, 1, 2])})
+                ops.append({"op": "load", "file": R.choice([0, 1, 0, 1, 2] + ([3, 3, 3] if use_shipped else []))})
                 if ops[-1]["file"] != 2 and R.random() < 0.4:
                     # the caller adds a record through the public add(), then loads the SAME unchanged file again: load() replaces whatever the object holds
                     ops.append({"op": "reload_after_add"})
@@ -188,7 +192,7 @@ def model_line(c):
         if o["op"] == "load":
             f = c["files"][o["file"]]
             if o["file"] != 2:
-                cur_file = o["file"]
+                cur_file = o["file"] if o["file"] != 3 else None
             toks.append("0 %d %s" % (len(f), " ".join(c09.hexline(l) for l in f)))
         elif o["op"] == "reload_after_add":
             if cur_file is None:
@@ -235,7 +239,11 @@ def impl_init():
         path = os.path.join(work, "c16-%d.fp" % os.getpid())
         for o in c["ops"]:
             try:
-                if o["op"] == "load":
+                if o["op"] == "load" and o["file"] == 3:
+                    db.load()
+                    loaded[0] = False            # (reload_after_add re-reads `path`, which does not hold this file)
+                    out.append({"load": True, "len": len(db)})
+                elif o["op"] == "load":
                     with open(path, "w", encoding="utf-8", newline="") as f:
                         f.write("\n".join(c["files"][o["file"]]) + "\n")
                     db.load(path)
@@ -318,11 +326,14 @@ def impl_init():
                     out.append(None)
                 else:
                     try:
-                        last = TCPPacketSignature.from_packet(parse_packet(scapy[o["pkt"]]))
-                        fingerprint_uptime(scapy[o["pkt"]], last, options=Options(database=db))
+                        pp = parse_packet(scapy[o["pkt"]])
+                        last = TCPPacketSignature.from_packet(pp)
+                        r = fingerprint_uptime(scapy[o["pkt"]], last, options=Options(database=db))
+                        r2 = fingerprint_uptime(pp, last, options=Options(database=db))
+                        # the clock-free part of the result: the parsed packet it carries, whichever form the input had
+                        out.append({"up": [type(r.packet).__name__, r.packet == pp, r2.packet is pp]})
                     except PacketError:
-                        pass
-                    out.append(None)
+                        out.append(None)
             except PacketError:
                 out.append({"err": "PacketError"})
             except DatabaseError as e:
@@ -349,10 +360,17 @@ def nontrivial(c, ir, mr):
 def judge(c, ir, mr):
     if not isinstance(ir, list):
         return {"kind": "history raised", "why": str(ir)}
-    cur = None
+    cur, shipped = None, False
     for k, (a, b) in enumerate(zip(ir, mr)):
         if c["ops"][k]["op"] == "load" and isinstance(a, dict) and a.get("load"):
             cur = c["files"][c["ops"][k]["file"]]
+            shipped = c["ops"][k]["file"] == 3
+        if isinstance(a, dict) and "up" in a:
+            if a["up"] != ["Packet", True, True]:
+                return {"kind": "a fingerprint result depends on the call history (differs from the pure function of input, database, options)",
+                        "why": "op %d %s: fingerprint_uptime's result carries [type of .packet, equal to parse_packet(input), parsed input handed back] = %s; expected ['Packet', True, True] "
+                               "for the Scapy form and the parsed form of the same packet" % (k, c["ops"][k], a["up"]), "judged_by": "C16_history (input form is not part of the function's domain)"}
+            a = None
         if isinstance(a, dict) and "len" in a:
             n = a["len"]
             a = {x: y for x, y in a.items() if x != "len"}
@@ -364,7 +382,7 @@ def judge(c, ir, mr):
             got = a["lab"]
             a = {x: y for x, y in a.items() if x != "lab"}
             line = (a.get("tcp") or a.get("http") or [None])[0]
-            if a == b and line is not None and cur is not None:
+            if a == b and line is not None and cur is not None and c["ops"][k].get("op") != "noop" and not shipped:
                 want = label_of(cur, line)
                 if got != want:
                     return {"kind": "the label reported with a match is not the one the loaded file gives that record (it depends on other loads)",
